@@ -255,3 +255,21 @@ spec("C04",
      assumptions=["JIT interval traces are judged against the model's (entry equal or the more conservative Both), JIT interval values are not compared with the model",
                   "value equality on the traced box is sampled by the oracle at box corners and interior points (the theorem covers all points where the trace is valid)"],
      )
+
+spec("C20",
+     cmd="c20", count=dict(quick=400, thorough=10000),
+     vo_targets=["props/C20.vo"],
+     level="proof",
+     rule="DAGs with 0-220+ choice clauses of all four kinds (RegReg and RegImm forms), 1-4 outputs; interpreter (N=255) and JIT point + interval tracing evaluators on one point and one box; float/grad slice lengths {0,1,3,7,8,9,15,16,17,33}; distinct_nontrivial = distinct arenas with at least 2 choice clauses",
+     classify=classify_default,
+     assumptions=["JIT interval trace entries may be the more conservative Both relative to the model's (its interval arithmetic may be wider); JIT point traces must equal the interpreter's"],
+     )
+
+spec("C10",
+     cmd="c10", count=dict(quick=300, thorough=6000),
+     vo_targets=["props/C10.vo"],
+     level="proof",
+     rule="random histories (5-40 steps) over 3-6 functions of different shapes with ONE long-lived point/interval/float-slice/grad-slice evaluator, one workspace, recycled function storage and recycled tape storage (JIT: Mmap), steps in {point, interval, slice(n), grad(n), simplify, recycle+rebuild}; every step is compared bit-for-bit with a twin using fresh objects; backends interpreter N=4, N=255 and x86_64 JIT; evaluations = histories, distinct_nontrivial = histories (each has its own random functions)",
+     classify=classify_default,
+     assumptions=["the history check is an oracle run on the implementation (differential against fresh objects); the theorems cover reset = new and stale-content independence of the modelled evaluators"],
+     )
